@@ -25,6 +25,7 @@ d=/verif/seeded/$name
 mkdir -p "$d"
 cp /tmp/seed-$name.diff "$d/patch.diff"; cp "$wt"/demo_*.py "$d/"; [ -f "$wt/notes.md" ] && cp "$wt/notes.md" "$d/notes.md"
 echo "== checks against /repo with the patch applied"
+(cd /verif/lean && lake build >/dev/null 2>&1) || { echo "LEAN BUILD BROKEN: fix it first, every check would report no-failing-input-found"; exit 5; }
 git -C /repo apply "$d/patch.diff"
 results=""
 for id in "$@"; do
